@@ -523,6 +523,17 @@ def e2e_cases(rng, count):
         cases.append(e2e_case(tag, "attr", "b", n, s, th, extra))
         cases.append(e2e_case(tag, "attr", "t", n, s, th, extra))
         cases.append(e2e_case(tag, "attr+cli-n", "b", rng.choice([1, 2, 6, 9]), s, th, extra))
+    # argument / generic cases; without a Bencher parameter the macro starts the sample loop itself (no RUN marker: one thread count)
+    for tag, n, s, th, args, nomark in (("arg_5_3_t2", 5, 3, [2], ["1", "2"], True), ("arg_2_2_t3", 2, 2, [3], ["7"], True),
+                                        ("barg_5_3_t12", 5, 3, [1, 2], ["1", "2"], False),
+                                        ("garg_4_2_t3", 4, 2, [3], ["u8/1", "u8/2", "u16/1", "u16/2"], True),
+                                        ("carg_3_2_t2", 3, 2, [2], ["4/1", "8/1"], True)):
+        for a in args:
+            extra = "arg=" + a + (" nomark=1" if nomark else "")
+            cases.append(e2e_case(tag, "attr", "b", n, s, th, extra))
+            cases.append(e2e_case(tag, "attr", "t", n, s, th, extra))
+        cases.append(e2e_case(tag, "attr", "t", n, s, th, "arg=" + args[-1] + (" nomark=1" if nomark else "") + " start=api-test"))
+        cases.append(e2e_case(tag, "attr", "b", n, s, th, "arg=" + args[0] + (" nomark=1" if nomark else "") + " start=args-test-then-api-bench"))
     # how the run is started: the requested action (mode) decides, not the configured one
     for tag in ("a_5_3_t123", "g_4_2_t12", "rgi_3_2_t23", "a_1_4_t13"):
         n, s, th = E2E_ATTR[tag][1:4]
@@ -613,7 +624,7 @@ def shrink_e2e(item, rerun_case):
         for ch in cands:
             t = dict(d)
             t.update(ch)
-            line = " ".join(f"{k}={t[k]}" for k in ("bench", "via", "mode", "n", "s", "threads", "mx", "bn", "bs", "start") if k in t)
+            line = " ".join(f"{k}={t[k]}" for k in ("bench", "via", "mode", "n", "s", "threads", "mx", "bn", "bs", "arg", "nomark", "start") if k in t)
             try:
                 bad, impl, model, sb = fails(line)
             except Exception:
